@@ -24,7 +24,7 @@ func init() {
 			"(c) CBE headers 0x81 x version ULEBs 0..300 in minimal form, padded multi-byte forms and >64-bit values x valid bodies; (d) valid CBE/CTE documents encoded from generated rules-valid streams; " +
 			"(e) byte-mutants and truncations of (d) including header edits. Differential oracle: for each document whose first byte is 'c'/'C' (=> CTE) or 0x81 (=> CBE), every universal entry point " +
 			"(ce.UnmarshalFromCEDocument, ce.UnmarshalCE, ce.NewCEDecoder DecodeDocument/Decode with and without rules) must give the same error nil-ness and the same rendered value / event log as the " +
-			"format-specific entry point, and no panic may escape. Version oracle (format-specific Unmarshal and decoder+rules): version 1 gives exactly the result of version 0; every other version number is rejected. " +
+			"format-specific entry point, and no panic may escape; a document with any other first byte (or none), which both format-specific entry points reject, must be rejected by every universal entry point too. Version oracle (format-specific Unmarshal and decoder+rules): version 1 gives exactly the result of version 0; every other version number is rejected. " +
 			"Encoder oracle: every CBE document produced by the encoder or marshaler starts with 81 00, every CTE document with 'c0' followed by whitespace. " +
 			"Documents with any other first byte (or none) are don't-care for the differential (only escaped panics are reported). Non-trivial = detected format and length >= 4; distinct = distinct documents.",
 		Assumptions: []string{"detection rule taken from the property text: 'c'/'C' => CTE, 0x81 => CBE, decided on the first byte only (leading whitespace is not detected as CTE)",
@@ -168,8 +168,22 @@ func c27Differential(c *fw.Ctx, cfg *configuration.Configuration, doc []byte, ho
 			c.Fail("escaped-panic:"+ue.Name()+"@"+c27Region(doc), map[string]interface{}{"doc": hexs(doc), "text": short(string(doc), 200), "panic": fmt.Sprint(u.Panic), "stack": u.Stack})
 		}
 		if det == "" {
-			c.Inc("dontcare.undetected_format")
+			// no format detected: both format-specific entry points reject such a document (observed, not assumed),
+			// so a universal entry point that reports success treats it like no format-specific entry point would
 			c.Eval()
+			if u.Panic != nil {
+				continue
+			}
+			sb, st := c27Call(k.As("cbe"), doc, nil, cfg), c27Call(k.As("cte"), doc, nil, cfg)
+			if sb.Panic != nil || st.Panic != nil || sb.ErrNil() || st.ErrNil() {
+				c.Inc("dontcare.undetected_format_accepted_by_a_specific_entry_point")
+				continue
+			}
+			c.Inc("undetected_format_docs_checked")
+			if u.ErrNil() {
+				c.Fail("universal-accepts-undetectable-format:"+ue.Name(), map[string]interface{}{"doc": hexs(doc), "text": short(string(doc), 200),
+					"universal": u.Brief(), "cbe_entry": sb.Brief(), "cte_entry": st.Brief()})
+			}
 			continue
 		}
 		se := k.As(det)
